@@ -11,6 +11,7 @@ CHECKS = {
             {"name": "TestC05Soup", "checks": [4000, 30000], "shards": [2, 16], "floor": 0.6},
             {"name": "TestC05Shapes", "enum": True},
             {"name": "TestC05Blobs", "enum": True},
+            {"name": "TestC05AttrFlood", "enum": True},
             {"name": "FuzzParseRender", "fuzz": True, "fuzztime": [0, 150]},
             {"name": "FuzzDeserialize", "fuzz": True, "fuzztime": [0, 60]},
             K,
@@ -70,6 +71,7 @@ CHECKS = {
         "tests": [
             {"name": "TestC20Attr", "checks": [150, 250], "shards": [2, 16], "floor": 0.8},
             {"name": "TestC20Family", "enum": True},
+            {"name": "TestC20Concurrent", "enum": True},
             K,
         ],
         "assumptions": ["the expected member is computed with the reflect package (FieldByName, MethodByName, MapIndex) and printed through the engine's own {{ v }}",
